@@ -19,6 +19,7 @@ RULE = ('(A) sequences of push / insert / index assignment / compound index assi
         'strings built by doubling fed to split/map/match_all/enumerate. Non-trivial = a case in which a mutator ran on a container of >= 9998 elements or a node produced a '
         'container of >= 9998 elements; distinct = distinct (source, host container sizes).')
 RULE += ' Element-adding operations with an invalid index (text, None, NaN, infinity, a container) on full containers; lookups (get, in, index_of) on a full host defaultdict.'
+RULE += " Coverage-guided programs: one atheris/libFuzzer process per worker (6 s quick, 120 s thorough) runs this check's own judgement on generated program texts over the instrumented sandbox copy; programs on which an unlisted violation was recorded there are judged again by the worker."
 ASSUMPTIONS = ['B = max(10000, longest host-supplied list/dict/string, length of the source text (upper bound for any literal))',
                'element-adding = push, insert, index assignment, compound index assignment; on a container with len >= 10000 at entry they must raise ParserError and leave '
                'the container (length and element identities) unchanged; an overwrite of an existing slot that succeeded without growth would not be flagged, growth always is',
@@ -223,6 +224,7 @@ def cases(ctx):
         if n % ctx.nshards == ctx.shard:
             yield ('src', p, CAP, False)
         n += 1
+    yield ('cgf', rnd.getrandbits(30), ctx.scale(6, 120))          # coverage-guided programs, one fuzzing process per worker
     # random sequences
     for _ in range(ctx.scale(25, 500)):
         size = rnd.choice(SIZES)
@@ -233,7 +235,32 @@ def cases(ctx):
             yield ('src', '\n'.join(rnd.choice(DICT_OPS) for _ in range(k)), size, rnd.random() < 0.5)
 
 
+def case_deadline(case):
+    return case[2] + 400 if case[0] == 'cgf' else CASE_DEADLINE
+
+
+def run_cgf(case, ctx):
+    """coverage-guided programs over a full host list / dict (10000 elements): an atheris/libFuzzer process runs THIS check's run_case on ('src', text, 10000, False)
+    cases over the instrumented sandbox copy; programs on which an unlisted violation was recorded there are judged again here"""
+    from lib import cgdriver
+    _, seed, seconds = case
+    r = random.Random(seed)
+    seeds = LIST_OPS[:12] + DICT_OPS[:8] + ['x = L\nx[len(x)] = 1', 'map([1, 2], v => push(L, v))', 'Dd[str(len(Dd))] = 1', 'y = [L, L]\npush(y[0], 3)', 'L.insert(len(L), 0)', 'sorted(L) | push(1)']
+    out = cgdriver.run(ctx, 'check:C03:src', seed, seconds, seeds)
+    if out is None:
+        return
+    st, fired, _slow = out
+    for text in fired:
+        ctx.count('programs_on_which_the_oracle_fired_in_the_fuzzing_process')
+        before = len(ctx.violations)
+        run_case(('src', text, 10000, False), ctx)
+        if len(ctx.violations) == before:
+            ctx.violation('coverage-guided fuzzing: a violation was recorded in the fuzzing process but not when the program was judged again here', ('src', text, 10000, False), detail={'src': text[:300]})
+
+
 def run_case(case, ctx):
+    if case[0] == 'cgf':
+        return run_cgf(case, ctx)
     _, src, size, intkeys = case
     ctx.M1.lambdas.clear()         # the registry keeps every lambda (and through it the names of its evaluation) alive
     W = ctx.W
